@@ -10,7 +10,7 @@ PROCS = 12
 
 def run_real(case):
   out = ec.run_test_case(case)
-  return {'tokens': out['tokens'], 'ret': out['ret'], 'crashes': out['crashes']}
+  return {'tokens': ec.core_tokens(out['tokens']), 'ret': out['ret'], 'crashes': out['crashes']}
 
 
 def encode(case, obs):
